@@ -24,7 +24,7 @@ func init() {
 	register(&propDef{
 		ID: "C18",
 		Meta: propMeta{
-			Explanation: "Decides structural necessary conditions of CFB validity in lib/comdoc, lib/redblack and the MSI digesters (nothing is executed): (R18a) the three walkers hashMsiDir, prehashMsiDir and msiToTarDir sort the ListDir result with sortMsiFiles before iterating, recurse into storages, and put the storage UID after the children; the direct digesters and DigestMsiTar skip the same two stream names, which are the names InsertMSISignature writes; (R18b) layout: Header encodes to 512 bytes and RawDirEnt to 128, every `SectorSize / K` uses K=128 for directory entries and K=4 for sector ids, the byte ranges prehashMsiDirent cuts out of an encoded entry are exactly the spans of StreamSize, UserFlags and CreateTime+ModifyTime, all binary I/O of the package is little-endian, and Close/writeShortSAT/writeDirStream/writeMSAT store every header count and chain head from the table they just wrote; (R18c) chains: every chain builder stores the end-of-chain marker after its loop on every success path (the empty chain excepted), no table is indexed by the end-of-chain sentinel on the zero-iteration path, every index of a sector table by a sector id on the writer side is preceded by a comparison of that id (ids produced by the allocator excepted), and the chain-following loops of the package are bounded (shared with C11 R11d); (R18d) red-black rebuild: a node can become red without an existing red node (new nodes are inserted red), Insert blackens the root, rebuildTree stores colour, both children (-1 for none) and the storage root, and the ordering function compares equal-length names through an upper-casing function as MS-CFB 2.6.4 requires; (R18e) the mini-stream cutoff is the same predicate `size < MinStdStreamSize` at every site and selects the short table on its true side; (R18f) lib/comdoc keeps no pointer to an element of a slice it grows with append (Files, SAT, SSAT, MSAT) in a struct field (zero instances today, positive control testdata/ctl/elemptr); (R18g) Close reads the end of the last used sector off the allocation table only after every step that can still allocate a sector, so a table sector placed last is not cut off; R18a also requires DigestMsiTar to read every tar member through the tar reader itself, without a length limit.",
+			Explanation: "Decides structural necessary conditions of CFB validity in lib/comdoc, lib/redblack and the MSI digesters (nothing is executed): (R18a) the three walkers hashMsiDir, prehashMsiDir and msiToTarDir sort the ListDir result with sortMsiFiles before iterating, recurse into storages, and put the storage UID after the children; the direct digesters and DigestMsiTar skip the same two stream names, which are the names InsertMSISignature writes; (R18b) layout: Header encodes to 512 bytes and RawDirEnt to 128, every `SectorSize / K` uses K=128 for directory entries and K=4 for sector ids, the byte ranges prehashMsiDirent cuts out of an encoded entry are exactly the spans of StreamSize, UserFlags and CreateTime+ModifyTime, all binary I/O of the package is little-endian, and Close/writeShortSAT/writeDirStream/writeMSAT store every header count and chain head from the table they just wrote; (R18c) chains: every chain builder stores the end-of-chain marker after its loop on every success path (the empty chain excepted), no table is indexed by the end-of-chain sentinel on the zero-iteration path, every index of a sector table by a sector id on the writer side is preceded by a comparison of that id (ids produced by the allocator excepted), and the chain-following loops of the package are bounded (shared with C11 R11d); (R18d) red-black rebuild: a node can become red without an existing red node (new nodes are inserted red), Insert blackens the root, rebuildTree stores colour, both children (-1 for none) and the storage root, and the ordering function compares equal-length names through an upper-casing function as MS-CFB 2.6.4 requires; (R18e) the mini-stream cutoff is the same predicate `size < MinStdStreamSize` at every site and selects the short table on its true side; (R18f) lib/comdoc keeps no pointer to an element of a slice it grows with append (Files, SAT, SSAT, MSAT) in a struct field (zero instances today, positive control testdata/ctl/elemptr); (R18g) Close reads the end of the last used sector off the allocation table only after every step that can still allocate a sector, so a table sector placed last is not cut off; R18a also requires DigestMsiTar to read every tar member through the tar reader itself, without a length limit. (R18h) a single sector taken from makeFreeSectors gets its allocation-table entry stored on every path to a success return; (R18i) in DigestMsiTar the stream copy into the digest is not reachable from the test for the metadata member without that member having been read on its own (or the iteration having ended).",
 			NotDecided:  "validity of a concrete output file: chains in bounds, acyclic and mutually disjoint, allocation tables and header counts agreeing with the file length, the directory tree being correctly ordered for the actual names (only the comparator's shape is checked), DIFAT growth arithmetic, equality of the tar-stream digest and the direct digest on a concrete MSI (only the walkers' agreement is checked).",
 			Assumptions: []string{"encoding/binary encodes fixed-size structs field by field without padding", "MS-CFB 2.6.4 (name ordering) and 2.6.1 (entry layout) as transcribed in the frozen tables"},
 		},
@@ -56,6 +56,7 @@ func runC18(c *Ctx) {
 	c18ElemPtr(c)
 	c18TarWhole(c)
 	c18Truncate(c, fns)
+	c18Round3(c)
 }
 
 // ------------------------------------------------------------------------------ R18a
@@ -860,6 +861,9 @@ func c18Tree(c *Ctx) {
 
 // ------------------------------------------------------------------------------ R18e
 
+// c18RuleCutoff: the rule id c18Cutoff reports under (C11 shares the rule as R11n).
+var c18RuleCutoff = "R18e"
+
 func c18Cutoff(c *Ctx, fns []*ssa.Function) {
 	p := c.P
 	n := 0
@@ -886,7 +890,7 @@ func c18Cutoff(c *Ctx, fns []*ssa.Function) {
 				n++
 				k++
 				key := fmt.Sprintf("%s cutoff#%d", p.FName(fn), k)
-				c.Check(okShape, "R18e", key, p.Pos(bo.Pos()), "size < MinStdStreamSize", fmt.Sprintf("the mini-stream cutoff is tested with %s here and with < elsewhere: a stream of exactly MinStdStreamSize bytes is stored in one table and looked up in the other", bo.Op))
+				c.Check(okShape, c18RuleCutoff, key, p.Pos(bo.Pos()), "size < MinStdStreamSize", fmt.Sprintf("the mini-stream cutoff is tested with %s here and with < elsewhere: a stream of exactly MinStdStreamSize bytes is stored in one table and looked up in the other", bo.Op))
 				// table selection on the short side
 				ifb := bo.Block()
 				var ifi *ssa.If
@@ -926,12 +930,12 @@ func c18Cutoff(c *Ctx, fns []*ssa.Function) {
 					}
 				}
 				okSel := uses(shortSide, "f:lib/comdoc.ComDoc.SSAT") && !uses(shortSide, "f:lib/comdoc.ComDoc.SAT") && (uses(longSide, "f:lib/comdoc.ComDoc.SAT") || satBefore) && !uses(longSide, "f:lib/comdoc.ComDoc.SSAT")
-				c.Check(okSel, "R18e", key+" selects the table", p.Pos(bo.Pos()), "short side uses SSAT, the other SAT", "the branch for streams below the cutoff does not use the short-sector table (or the other branch does)")
+				c.Check(okSel, c18RuleCutoff, key+" selects the table", p.Pos(bo.Pos()), "short side uses SSAT, the other SAT", "the branch for streams below the cutoff does not use the short-sector table (or the other branch does)")
 			}
 		}
 	}
 	if n < 3 {
-		c.Undecided("R18e", "cutoff sites", "-", fmt.Sprintf("only %d comparisons with MinStdStreamSize found (3 confirmed by reading)", n))
+		c.Undecided(c18RuleCutoff, "cutoff sites", "-", fmt.Sprintf("only %d comparisons with MinStdStreamSize found (3 confirmed by reading)", n))
 	}
 	// addStream(short): short side allocates from and links in the SSAT
 	if fn := p.Func("lib/comdoc.(*ComDoc).addStream"); fn != nil {
@@ -957,7 +961,7 @@ func c18Cutoff(c *Ctx, fns []*ssa.Function) {
 				}
 			}
 		}
-		c.Check(ok, "R18e", "(*lib/comdoc.ComDoc).addStream short side allocates short sectors", p.Pos(fn.Pos()), "", "a short stream is not allocated from the short-sector table")
+		c.Check(ok, c18RuleCutoff, "(*lib/comdoc.ComDoc).addStream short side allocates short sectors", p.Pos(fn.Pos()), "", "a short stream is not allocated from the short-sector table")
 	}
 	_ = sort.Strings
 }
